@@ -18,7 +18,7 @@ RULE = (
 ASSUMPTIONS = ["the set of implemented identities is read from the repository's tables (as data); the 49 MSM numbers "
                "and the block 1070-1229 are pinned"]
 GATES = ["numbers_checked", "subtypes_checked", "stubs_checked", "df002_checked", "ismsm_true_checked",
-         "ismsm_false_checked", "reader_frames_checked", "collider_pairs", "frame_as_payload"]
+         "ismsm_false_checked", "reader_frames_checked", "collider_pairs", "frame_as_payload", "reader_resumed_after_pause"]
 
 
 def check(ctx, payload, expect_id, defined, full_body, rep=None):
@@ -79,10 +79,24 @@ def reader_case(ctx, payloads):
     from pyrtcm import RTCMReader
 
     defs, _ = refmodel.tables()
+    from vf import doubles
+
     data = b"".join(refcrc.frame(p) for p in payloads)
     params = {"reader": [p.hex() for p in payloads]}
+    # the stream pauses once between two frames (growing file / timeout); the consumer iterates the same reader again
+    bounds, off = [], 0
+    for p in payloads[:-1]:
+        off += len(p) + 6
+        bounds.append(off)
+    pauses = [bounds[len(data) % len(bounds)]] if bounds and len(data) % 3 == 0 else []
+    stream = doubles.RecordingStream(data, budget=4 * len(data) + 64, pauses=pauses)
     try:
-        got = [(bytes(raw), m) for raw, m in RTCMReader(io.BytesIO(data), quitonerror=0)]
+        rdr = RTCMReader(stream, quitonerror=0)
+        got = []
+        for _ in range(len(pauses) + 1):
+            got += [(bytes(raw), m) for raw, m in rdr]
+        if pauses:
+            ctx.hit("reader_resumed_after_pause")
     except Exception as e:
         ctx.violation("reader-raised", f"{type(e).__name__}: {e}", params)
         return
